@@ -2162,6 +2162,47 @@ Theorem rows_refine (k : cells -> res cells) (g : list Q -> res (list Q)) rows r
   rrel (Forall2 Rv) (mapM k rows) (mapM g rows').
 Proof. intros H Hr. apply (mapM_rrel Rv); auto. Qed.
 
+(* ================================================================== Part 14: copy_like, to_flat_array, from_flat_array *)
+(* copying from the object itself, or from the full selection of its own rows, changes nothing *)
+Lemma copy_like_self lg s i x : nth_error s i = Some x -> (match x with OV _ _ | OA _ _ => True | _ => False end) ->
+  xstep lg s (XOp (OCopyLike i (CObj i))) = (s, RUnit).
+Proof.
+  intros Hi Hx. unfold xstep. cbn [xstep_res step_res]. unfold getobj. rewrite Hi. cbn [bind].
+  destruct x; try contradiction; now rewrite Nat.eqb_refl.
+Qed.
+Lemma copy_like_view_id rows : forall m k, copy_like_view rows k (seq k m) = Ok rows.
+Proof.
+  induction m as [|m IH]; intros k; cbn [seq copy_like_view]; auto.
+  destruct (Nat.leb (length rows) k); auto. now rewrite Nat.eqb_refl.
+Qed.
+(* a vector copied from a vector of its size becomes that vector (and nothing else changes: C09_frame) *)
+Lemma copy_like_vec_same c d : length d = length c -> copy_like_vec c d = Ok d.
+Proof. apply set_open_obj_refines. Qed.
+Lemma copy_like_rows_same rows : forall others, Forall2 (fun r o => length o = length r) rows others ->
+  copy_like_rows rows others = Ok others.
+Proof.
+  induction rows as [|r rows IH]; intros others H; inversion H; subst; cbn [copy_like_rows]; auto.
+  rewrite copy_like_vec_same by auto. cbn [bind]. rewrite IH by auto. reflexivity.
+Qed.
+(* to_flat_array: the content of the buffer is irrelevant *)
+Lemma to_flat_buffer_irrelevant lg s i b1 b2 : length b1 = length b2 ->
+  xstep lg s (XOp (OToFlat i (Some b1))) = xstep lg s (XOp (OToFlat i (Some b2))).
+Proof. intros L. unfold xstep. cbn [xstep_res step_res]. now rewrite L. Qed.
+(* from_flat_array then to_flat_array gives the array back *)
+Lemma concat_chunks n : forall k l, length l = (k * n)%nat -> concat (chunks n k l) = l.
+Proof.
+  induction k as [|k IH]; intros l L; cbn in *.
+  - destruct l; [reflexivity|discriminate].
+  - rewrite IH; [apply firstn_skipn|]. rewrite skipn_length. lia.
+Qed.
+Lemma dense_of_dense_rows m : Forall2 Qeq (concat (map dense (map of_dense m))) (concat m).
+Proof. induction m as [|r m IH]; cbn; [constructor|]. apply Forall2_app; auto. apply dense_of_dense. Qed.
+Theorem flat_round_trip n k l : length l = (k * n)%nat ->
+  Forall2 Qeq (concat (map dense (map of_dense (chunks n k l)))) l /\ Forall wf (map of_dense (chunks n k l)).
+Proof.
+  intros L. split; [|apply Forall_wf_of_dense]. rewrite <- (concat_chunks n k l L) at 2. apply dense_of_dense_rows.
+Qed.
+
 (* ================================================================== Part 12: histories refine NumPy histories (vectors, logical vectors, row-wise arrays) *)
 Inductive fop (s : store) : xop -> Prop :=
 | F_bin a i x c ro : a <> Div -> nth_error s i = Some (OV c ro) -> okarg s c x -> fop s (XOp (OBin (BA a) i x))
@@ -2367,7 +2408,7 @@ Proof.
   intros Hs Ho. destruct Ho as [a i x c ro Ha Ei Hx | a i x c ro Ha Ei Hx Hsh
                               | a i x rows ro Ha Ei Hne Hok | a i x rows Ha Ei Hne Hok Hsh
                               | bo lo i j b b2 Hl Hn Ei Ej Hne | bo lo i j b b2 Hl Hn Ei Ej Hsh
-                              | i c ro Ei | i c ro Ei | i c ro Ei | i c ro Ei | i c ro Ei | i j c d rd Ei Ej Hl].
+                              | i c ro Ei | i c ro Ei | i c ro Ei | i c ro Ei | i c ro Ei | i j c cd rd Ei Ej Hl].
   3: { eapply step_sim_abin; eauto. }
   3: { eapply step_sim_aibin; eauto. }
   3: { eapply step_sim_lbin; eauto. }
@@ -2416,7 +2457,7 @@ Proof.
     destruct Hoo2 as [Hdw _].
     unfold xstep. cbn [xstep_res step_res np_step]. unfold getobj. rewrite Ei, Ei', Ej'. cbn [bind].
     destruct (Nat.eqb j i) eqn:J; [cbn; auto|].
-    rewrite Ej. cbn [bind]. rewrite (copy_like_vec_same c d Hl). cbn [bind].
+    rewrite Ej. cbn [bind]. rewrite (copy_like_vec_same c cd Hl). cbn [bind].
     assert (L : Nat.eqb (length w) (length v) = true).
     { apply Nat.eqb_eq. now rewrite <- (Rv_length _ _ Hdw), <- (Rv_length _ _ Hcv). }
     rewrite L. cbn. split; auto. apply sim_upd; auto. cbn. auto.
@@ -2481,43 +2522,3 @@ Proof.
   - intros ix. eapply readonly_vector_rejects; eauto. right; right. eauto.
 Qed.
 
-(* ================================================================== Part 14: copy_like, to_flat_array, from_flat_array *)
-(* copying from the object itself, or from the full selection of its own rows, changes nothing *)
-Lemma copy_like_self lg s i x : nth_error s i = Some x -> (match x with OV _ _ | OA _ _ => True | _ => False end) ->
-  xstep lg s (XOp (OCopyLike i (CObj i))) = (s, RUnit).
-Proof.
-  intros Hi Hx. unfold xstep. cbn [xstep_res step_res]. unfold getobj. rewrite Hi. cbn [bind].
-  destruct x; try contradiction; now rewrite Nat.eqb_refl.
-Qed.
-Lemma copy_like_view_id rows : forall m k, copy_like_view rows k (seq k m) = Ok rows.
-Proof.
-  induction m as [|m IH]; intros k; cbn [seq copy_like_view]; auto.
-  destruct (Nat.leb (length rows) k); auto. now rewrite Nat.eqb_refl.
-Qed.
-(* a vector copied from a vector of its size becomes that vector (and nothing else changes: C09_frame) *)
-Lemma copy_like_vec_same c d : length d = length c -> copy_like_vec c d = Ok d.
-Proof. apply set_open_obj_refines. Qed.
-Lemma copy_like_rows_same rows : forall others, Forall2 (fun r o => length o = length r) rows others ->
-  copy_like_rows rows others = Ok others.
-Proof.
-  induction rows as [|r rows IH]; intros others H; inversion H; subst; cbn [copy_like_rows]; auto.
-  rewrite copy_like_vec_same by auto. cbn [bind]. rewrite IH by auto. reflexivity.
-Qed.
-(* to_flat_array: the content of the buffer is irrelevant *)
-Lemma to_flat_buffer_irrelevant lg s i b1 b2 : length b1 = length b2 ->
-  xstep lg s (XOp (OToFlat i (Some b1))) = xstep lg s (XOp (OToFlat i (Some b2))).
-Proof. intros L. unfold xstep. cbn [xstep_res step_res]. now rewrite L. Qed.
-(* from_flat_array then to_flat_array gives the array back *)
-Lemma concat_chunks n : forall k l, length l = (k * n)%nat -> concat (chunks n k l) = l.
-Proof.
-  induction k as [|k IH]; intros l L; cbn in *.
-  - destruct l; [reflexivity|discriminate].
-  - rewrite IH; [apply firstn_skipn|]. rewrite skipn_length. lia.
-Qed.
-Lemma dense_of_dense_rows m : Forall2 Qeq (concat (map dense (map of_dense m))) (concat m).
-Proof. induction m as [|r m IH]; cbn; [constructor|]. apply Forall2_app; auto. apply dense_of_dense. Qed.
-Theorem flat_round_trip n k l : length l = (k * n)%nat ->
-  Forall2 Qeq (concat (map dense (map of_dense (chunks n k l)))) l /\ Forall wf (map of_dense (chunks n k l)).
-Proof.
-  intros L. split; [|apply Forall_wf_of_dense]. rewrite <- (concat_chunks n k l L) at 2. apply dense_of_dense_rows.
-Qed.
